@@ -38,13 +38,31 @@ FIXED = {
  "host bindings popped and pushed a slot for void": ("C36", "#host fn e(x: (int, void)) -> (int, void) consumes a caller slot"),
  "bindings declared inside a match that is used as another match's scrutinee": ("C12,C14,C03", "match (match x { v -> .. }) { r -> .. } stores v past the frame"),
 }
+FIXED.update({
+ "a generic function whose result type is instantiated to void": ("C02,C01", "id(10) + { let w = (o: option<void>)!; 5 } prints 5"),
+ "patterns on enum variants with void fields": ("C02,C01,C14", "match Ev.Va(5, nil) { .Va(n, _) -> n .. } faults; 1 + match En.Dd(nil) { .Dd(_) -> 9 .. } prints 9"),
+ "the line reported for a runtime error in a multi-line expression": ("C05,C32", "vh_emit_int(x ^ {\n x\n}) with x = -7: error line differs between optimized and unoptimized builds"),
+ "editor queries panicked on any file containing a task block": ("C34", "`task { 1 }`: definition_at / type_at / completions_at hit unimplemented!()"),
+ "looking up an interface implementation panicked": ("C04,C34", 'type Gg = { aa: string = "x"! } ; implement ToString for <undefined type>'),
+ "an array type annotation without a type argument": ("C04,C34", "let a: array<> = [1]"),
+ "the push/pop peephole underflowed": ("C04", "type Gg = {..}; Gg as an expression statement: subtract with overflow in the optimizer"),
+ "'?' on a type whose Try implementation lacks a method": ("C04", "Try impl without from_residual, then `?`"),
+ "indexing a function value overflowed the stack": ("C04,C34", "fn f(a) { a }; f[0](1) aborts the compiler (stack overflow)"),
+ "lexer errors (bad escape sequence, unrecognized character) pointed at the wrong text": ("C33", 'println("\\qab") underlines bytes 0..2 of the file'),
+})
 OPEN = [
+ ("C01", "root:jump-out-of-operand:break", "`break` inside a block used as an operand (e.g. `id(100) + { while .. { acc += id(7) + { if c { break }; 1 } }; acc }`) compiles to a bare jump that leaves the pending operands on the stack: wrong results (23 instead of 116), type-tag faults or operand-stack leaks; confined to the S-jump stratum (`return` and `?` in the same positions are correct)"),
+ ("C01", "root:jump-out-of-operand:continue", "`continue` inside a block used as an operand (e.g. `id(100) + { while .. { acc += id(7) + { if c { continue }; 1 } }; acc }`) compiles to a bare jump that leaves the pending operands on the stack: wrong results (23 instead of 116), type-tag faults or operand-stack leaks; confined to the S-jump stratum (`return` and `?` in the same positions are correct)"),
+ ("C02", "root:jump-out-of-operand:break", "`break` inside a block used as an operand (e.g. `id(100) + { while .. { acc += id(7) + { if c { break }; 1 } }; acc }`) compiles to a bare jump that leaves the pending operands on the stack: wrong results (23 instead of 116), type-tag faults or operand-stack leaks; confined to the S-jump stratum (`return` and `?` in the same positions are correct)"),
+ ("C02", "root:jump-out-of-operand:continue", "`continue` inside a block used as an operand (e.g. `id(100) + { while .. { acc += id(7) + { if c { continue }; 1 } }; acc }`) compiles to a bare jump that leaves the pending operands on the stack: wrong results (23 instead of 116), type-tag faults or operand-stack leaks; confined to the S-jump stratum (`return` and `?` in the same positions are correct)"),
+ ("C05", "root:jump-out-of-operand:break", "`break` inside a block used as an operand (e.g. `id(100) + { while .. { acc += id(7) + { if c { break }; 1 } }; acc }`) compiles to a bare jump that leaves the pending operands on the stack: wrong results (23 instead of 116), type-tag faults or operand-stack leaks; confined to the S-jump stratum (`return` and `?` in the same positions are correct)"),
+ ("C05", "root:jump-out-of-operand:continue", "`continue` inside a block used as an operand (e.g. `id(100) + { while .. { acc += id(7) + { if c { continue }; 1 } }; acc }`) compiles to a bare jump that leaves the pending operands on the stack: wrong results (23 instead of 116), type-tag faults or operand-stack leaks; confined to the S-jump stratum (`return` and `?` in the same positions are correct)"),
  ("C03", "c03:NumNeg:accepted-then-compiler-panic", "unary minus on a user type implementing Num is accepted by the checker and hits unreachable!() in the translator (Num has no negate/zero); any context"),
- ("C03", "c03:NumNeg:accepted-then-compiler-panic:in-operand", "same, payload inside an operand block"),
+ ("C03", "c03:NumNeg:accepted-then-compiler-panic:in-operand", "unary minus on a user Num type (payload inside an operand block): accepted by the checker, unreachable!() in the translator"),
  ("C03", "c03:NumAddAssign:accepted-then-compiler-panic", "`n += n` on a var of a user Num type is accepted and hits unreachable!() in the translator (compound assignment only knows int/float)"),
- ("C03", "c03:NumAddAssign:accepted-then-compiler-panic:in-operand", "same, payload inside an operand block"),
+ ("C03", "c03:NumAddAssign:accepted-then-compiler-panic:in-operand", "`n += n` on a var of a user Num type (payload inside an operand block): accepted, unreachable!() in the translator"),
  ("C03", "c03:IdxAddAssign:accepted-then-compiler-panic", "`m[k] += e` through a user Index implementation is accepted and hits unimplemented!() in the translator"),
- ("C03", "c03:IdxAddAssign:accepted-then-compiler-panic:in-operand", "same, payload inside an operand block"),
+ ("C03", "c03:IdxAddAssign:accepted-then-compiler-panic:in-operand", "`m[k] += e` through a user Index implementation (payload inside an operand block): accepted, unimplemented!() in the translator"),
  ("C03", "c03:Continue:accepted-compiled-run-fault:in-operand", "`continue` inside a block used as an operand (`let t = 1 + { continue; 2 }`) leaves the pending operand on the stack: VM fault on a later instruction"),
  ("C03", "c03:Break:accepted-compiled-run-fault:in-operand", "`break` inside a block used as an operand leaves the pending operand on the stack: VM fault"),
  ("C22", "input:f107c16f90b43f63", "direct Rg: `c[0] += 1` through a user Index implementation: translator unimplemented!() (same root as C03 IdxAddAssign)"),
@@ -66,6 +84,12 @@ def main():
                              "what": f"fixed: property={p} {h} {what}"})
     for p, key, what in OPEN:
         findings.append({"property": p, "status": "open", "match": key, "what": what})
+    # input-keyed findings (one enumerated text each), generated from a thorough run and reviewed by root cause
+    inp = os.path.join(ROOT, "tools", "known_inputs.json")
+    if os.path.exists(inp):
+        for e in json.load(open(inp)):
+            findings.append({"property": e["property"], "status": "open", "match": e["match"],
+                             "what": e["root"] + " | input: " + e["text"].replace("\n", "\\n")})
     doc = {"_comment": "Genuine defects of anandrav/abra found by the checks. status=open: the matching violation becomes a KNOWN-FINDING line (exit 0); status=fixed: repaired by the named /repo commit, suppresses nothing. `match` is compared with the keys of a violation (input:<fnv64 of the case text>, construct-level keys such as c03:<payload>:<failure class>, root:<...>). Never written at run time; regenerate with tools/known.py.",
            "findings": findings}
     json.dump(doc, open(os.path.join(ROOT,"known_findings.json"),"w"), indent=1)
